@@ -1,5 +1,6 @@
 import JediModel.Proto
 import JediModel.Model.Recursion
+import JediModel.Model.Mro
 import JediModel.Gen.C15
 open Lean Proto JediModel.Recursion
 
@@ -85,6 +86,18 @@ def handle (j : Json) : Json :=
       | [n, g] => (asNat n, asBool g)
       | _ => (0, false)
     jarr ((limitRun (nat j "cap") (nat j "factor") Counts.empty calls).2.map jbool)
+  | "mro" =>
+    -- list(root.py__mro__()) plus the inner-loop iterations of every class body (each runs once)
+    let basesL := (arr j "bases").map fun b => (asArr b).map asNat
+    let record := if str j "record" == "base" then JediModel.Mro.recordBase else JediModel.Mro.recordYielded
+    let fuel := nat j "fuel"
+    let bodies := (List.range basesL.length).map fun c =>
+      match JediModel.Mro.mroWith record (nthList basesL) fuel c with
+      | .ok s => jobj [("len", jnat s.out.length), ("steps", jnat s.steps)]
+      | .error e => jobj [("error", jstr (errStr e))]
+    match JediModel.Mro.mroWith record (nthList basesL) fuel (nat j "root") with
+    | .ok s => jobj [("out", jarr (s.out.map jnat)), ("bodies", jarr bodies)]
+    | .error e => jobj [("error", jstr (errStr e))]
   | op => jobj [("error", jstr ("unknown op " ++ op))]
 
 def main : IO Unit := Proto.run handle
